@@ -67,7 +67,7 @@ T['C10'] = dict(
  note="")
 T['C11'] = dict(
  technique="Coq proof that process_arg (esc s) = s for EVERY string and that esc s shows no raw special character (decoder constants regenerated from parser.rs) + differential run over the full Unicode range, 8 operations x 2 contexts",
- text="Theorems (Properties/C11.v): for every string s the decoder of parser.rs (regenerated escape table, per-character iteration) applied to the documented escaping of s returns s; the escaped text contains no unescaped : | { } and every backslash escapes the next character; plain text decodes to itself. PARTIAL: that the argument rules of the grammar (simple_arg, split_arg, pad_char) consume exactly the escaped text is not proved per rule; it is covered by the run: arguments over the full Unicode range biased to backslashes, unbalanced braces, colons, pipes, newlines, multi-byte characters through append, prepend, surround, quote, join, split, trim, pad at top level and inside map -- the parsed operation must carry exactly the argument, format must give x+s etc., and the model parser must agree.",
+ text="Theorems (Properties/C11.v): for every string s the decoder of parser.rs (regenerated escape table, per-character iteration) applied to the documented escaping of s returns s; the escaped text contains no unescaped : | { } and every backslash escapes the next character; plain text decodes to itself. the simple_arg rule of the regenerated grammar equals a direct scanner and reads exactly esc s; whole blocks {append|prepend|surround|quote|join:ESC(s)}, {split:ESC(s):..}, {trim:ESC(s):both}, {pad:3:ESC(c):left} parse to the operation carrying exactly s for every s (top level; five also inside map), proved by symbolic evaluation of the regenerated grammar; format({append:ESC(s)}, x) = x ++ s (also prepend, surround, quote) end to end. PARTIAL: the remaining map-context spellings and blocks embedded in mixed templates are covered by the run only: arguments over the full Unicode range biased to backslashes, unbalanced braces, colons, pipes, newlines, multi-byte characters through append, prepend, surround, quote, join, split, trim, pad at top level and inside map -- the parsed operation must carry exactly the argument, format must give x+s etc., and the model parser must agree.",
  note="")
 T['C12'] = dict(
  technique="Coq proofs: accepted blocks are consumed to the end (grammar anchored at EOI, recomputed on the regenerated grammar), numeric arguments are exact and in range or rejected, no map inside map, tree shape facts + exhaustive token-alphabet sweep and edit corruptions against an independent AST-guided spelling matcher and the model parser",
